@@ -307,6 +307,22 @@ def rule_fdb(ctx: Ctx) -> List[Ob]:
                                     entries.append((vv, guard_of(init.node, s), s))
                         elif isinstance(t, ast.Subscript) and src(t.value) == D and isinstance(t.slice, ast.Constant) and t.slice.value == "bounds":
                             entries.append((s.value, guard_of(init.node, s), s))
+                # the other options of the differencing scheme: one binding each, to the matching argument
+                want = {"method": "grad", "rel_step": "finite_diff_rel_step", "abs_step": "epsilon"}
+                for key, param in want.items():
+                    es = []
+                    for s2 in ast.walk(init.node):
+                        if isinstance(s2, ast.Assign) and len(s2.targets) == 1:
+                            t2 = s2.targets[0]
+                            if isinstance(t2, ast.Name) and t2.id == D and isinstance(s2.value, ast.Dict):
+                                es += [vv for kk, vv in zip(s2.value.keys, s2.value.values) if isinstance(kk, ast.Constant) and kk.value == key]
+                            elif isinstance(t2, ast.Subscript) and src(t2.value) == D and isinstance(t2.slice, ast.Constant) and t2.slice.value == key:
+                                es.append(s2.value)
+                    oke = len(es) == 1 and src(es[0]) == param
+                    obs.append(ob("FDB", f"options['{key}'] is the caller's {param}", init, es[0] if es else init.node, oke,
+                                  f"{D}['{key}'] <- {[short(x) for x in es]}" + ("" if oke else
+                                  f": expected exactly one binding to `{param}` (the step of the scheme must not depend on anything else, e.g. the start point)"),
+                                  False, construct=f"{D}['{key}'] = {param}"))
                 good = [e for e in entries if src(e[0]) == "finite_diff_bounds" and
                         (e[1] is None or bool_equiv(e[1], "grad in FD_METHODS"))]
                 bad = [e for e in entries if e not in good]
